@@ -223,7 +223,7 @@ def eng_l2(prop, tier, seed):
     n = JOBS
     # every l2mon shard runs `rounds` fresh child processes; each child gives every function in
     # focus exactly one history (nothing carries over between histories)
-    rounds = int(os.environ.get("VERIF_L2_ROUNDS", "0")) or (6000 if tier == "thorough" else 250)
+    rounds = int(os.environ.get("VERIF_L2_ROUNDS", "0")) or (3000 if tier == "thorough" else 250)
     cmds = []
     for i in range(n):
         out = os.path.join(OUT, f"{prop}-l2-{i}.json")
@@ -246,8 +246,8 @@ def eng_conc(prop, tier, seed):
     n = JOBS
     cmds = []
     quick = tier == "quick"
-    n_serial = int(os.environ.get("VERIF_CONC_SERIAL", "0")) or (500 if quick else 120000)
-    n_jitter = int(os.environ.get("VERIF_CONC_JITTER", "0")) or (30 if quick else 6000)
+    n_serial = int(os.environ.get("VERIF_CONC_SERIAL", "0")) or (500 if quick else 15000)
+    n_jitter = int(os.environ.get("VERIF_CONC_JITTER", "0")) or (30 if quick else 1500)
     for i in range(n):
         out = os.path.join(OUT, f"{prop}-conc-serial-{i}.json")
         cmds.append(([bin_path("concmon"), "--out", out, "--seed", str(seed), "--shard", f"{i}/{n}", "--focus", prop, "--mode", "serial", "--scenarios", str(n_serial)], out))
@@ -487,7 +487,7 @@ L2_RULE = ("MACRO LEVEL: generated multi-cache histories (30-120 operations + cl
            "operation: returned value, body executed?, predicate/check invocations, key listing (never-matching invalidate_with predicate) and stats_registry are compared with the wrapper model. ")
 
 prop("C01", ["l1", "l2", "key"], "exploration",
-     L1_RULE + L2_RULE + "KEY LEVEL (shared with C02): adversarial argument pairs on 29 signature shapes; a call served from another tuple's entry is reported here as 'a value stored for other arguments'. Non-trivial = a lookup of a stored key (value must be the last one stored for that key); distinct = distinct (configuration, key, hit-count class, store size).",
+     L1_RULE + L2_RULE + "KEY LEVEL (shared with C02): adversarial argument pairs on 40 signature shapes; a call served from another tuple's entry is reported here as 'a value stored for other arguments'. Non-trivial = a lookup of a stored key (value must be the last one stored for that key); distinct = distinct (configuration, key, hit-count class, store size).",
      COMMON_ASSUME, ("C01", "lookups_of_stored_key"))
 prop("C05", ["l1", "l2"], "exploration",
      L1_RULE + L2_RULE + "Values: String, Vec<u8>, Vec<String>, Option<String>, Result<String,String>, (String,Vec<u32>), Box<String>, a user type with its own estimator; sizes around M/3, M/2, M-1, M, M+1, >M, with slack capacity. Sizes are measured by an independent footprint oracle. Non-trivial = a store under memory pressure; distinct = distinct (configuration, residents, order shape, size class).",
@@ -505,7 +505,7 @@ prop("C16", ["l1", "l2", "miri"], "exploration",
      L1_RULE + "Every operation runs under catch_unwind in a build with overflow checks and debug assertions. Non-trivial/distinct = configurations of the full product visited (each with overflow-heavy histories).",
      COMMON_ASSUME, ("C16", "ops_under_catch_unwind"))
 prop("C02", ["key", "l2"], "exploration",
-     "KEY LEVEL: 29 signature shapes (1-5 arguments over integers, floats, bool, char, String, &str, tuples, Option, nested Option, Vec, slices, Debug-derived struct and enum, &self methods with string-bearing receivers), each as #[cache] and #[cache_async], bodies return a fresh serial. "
+     "KEY LEVEL: 40 signature shapes (1-5 arguments over integers, floats, bool, char, String, &str, tuples, Option, nested Option, Vec, slices, Debug-derived struct and enum, &self methods with string-bearing receivers), each as #[cache] and #[cache_async], bodies return a fresh serial. "
      "Pairs of argument tuples a != b (structural/bitwise inequality, NaN excluded) are drawn from an adversarial alphabet (| \" \\ ' , ( ) [ ] space newline NUL DEL, the words Some/None, quote-separator-quote sequences), by single-position mutation, and by boundary shifting "
      "(render two neighbouring arguments with separators '', '|', ',', ' ', '\"|\"', ', ', move the boundary, re-parse); f(a); f(b); f(a) must execute twice and serve a its own serial; every 32 pairs the number of listed key strings must equal the number of distinct tuples stored. "
      "Non-trivial/distinct = distinct (function, a, b) pairs. " + L2_RULE + "There, a learned slot->key-string map must stay injective.",
